@@ -54,7 +54,7 @@ CHECKS = {
         engine="sched-lib + sched-cli", category="exploration", design_ref="§6.6, §4",
         technique="deterministic simulation with seeded schedulers over yield points inserted at build time (go build -overlay, nothing committed in /repo): scheduler L = turn token without happens-before edges so that the Go race detector stays sound under a chosen interleaving (plain + -race builds, same seeds); scheduler P = park/release with blocked-state detection from goroutine wait reasons, driving the real CLI main() as task 0",
         text="Library: 2-4 tasks run Exec/Unmarshal/GetCursorString/BuildExpr on one shared tree, one pool of compiled expressions and one set of bindings (incl. shared node-set variables with spare capacity); every operation must return its isolated-world result, the shared world must be unchanged after the join, and the -race build of the same seeds must report nothing in /repo code; tasks also parse documents concurrently (what every CLI worker does first); now and then a crowd of 16-32 tasks each inside one deeply nested evaluation. CLI: `-c N` under drawn schedules (uniform, priority change points, run-to-block, starvation; yields in xsel/xsel.go and, one in four, inside parser/store/exec) must terminate by main returning and print exactly the per-file blocks of `-c 1`, each once and contiguous.",
-        note="Yield granularity is the Go statement; the generated lexer/GLL parser and map-ranging build-time functions are not yield-instrumented (BuildExpr is atomic in the plain build; the race build still sees their memory accesses). GOMAXPROCS=1 inside simulations. A mutant that adds blocking primitives to the library makes scheduler L inconclusive (exit 2)."),
+        note="Yield granularity is the Go statement; the generated lexer/GLL parser and map-ranging build-time functions are not yield-instrumented (BuildExpr is atomic in the plain build; the race build still sees their memory accesses). GOMAXPROCS=1 inside simulations. Blocking primitives inside the library are tolerated: a task parked in one loses the turn (runs in which that happened are excluded from the byte-for-byte determinism self-test); the collector is held still during a run."),
     "C15": dict(
         engine="hostile", category="exploration", design_ref="§6.5",
         technique="deterministic simulation with heavy fault injection at every seam: failing/garbage streams into all readers, failing/panicking/nil-returning callbacks, nil and odd bindings, unfillable Unmarshal targets, boundary-class numerics and token-mutated expressions; oracle = terminates, value xor error, no panic, no internal 'xpath query panic' for well-typed queries",
